@@ -7,10 +7,13 @@ Model of the multi-objective explorer's step rule and return-to-base schedule
 The model is generic in
 * the arithmetic `A : Arith α` (the driver runs it on `Float`, the same IEEE binary64 the Go code
   uses; the theorems use an ordered field with `exp`), and
-* the optimised model, seen through `ModelOps σ` (compress to an archive entry, synchronise to an
-  action set, produce the randomised candidate); the driver instantiates it with the catchment model.
+* the optimised model, seen through `ModelOps σ` (compress to an archive entry, read the objective
+  values, synchronise to an action set, produce the randomised candidate); the driver instantiates it
+  with the catchment model.
 Every random choice is an input: the candidate's randomisation draws, the uniform draw `u`, the
-archive member picked on return-to-base.  Core Lean only.
+archive member picked on return-to-base.  Nothing else is an input: in particular the per-objective
+changes the coolant receives (`VariableDifferences`) are computed by the model from the candidate's
+and the current solution's objective values.  Core Lean only.
 -/
 namespace Crem.Suppa
 open Crem.Archive
@@ -20,6 +23,7 @@ structure Arith (α : Type) where
   one : α
   zero : α
   add : α → α → α
+  sub : α → α → α
   mul : α → α → α
   div : α → α → α
   neg : α → α
@@ -28,6 +32,7 @@ structure Arith (α : Type) where
   max : α → α → α
   gt : α → α → Bool          -- `>`
   ofNat : Nat → α
+  ofRat : Rat → α            -- the binary64 (or real) value of an objective that lies on a decimal grid
   trunc : α → Nat            -- Go's `uint64(x)` for 0 ≤ x < 2^64
 
 inductive CoolantKind | product | averaged
@@ -40,9 +45,15 @@ def accProb {α : Type} (A : Arith α) (k : CoolantKind) (T : α) (diffs : List 
   | .product => ps.foldl A.mul A.one
   | .averaged => A.div (ps.foldl A.add A.zero) (A.ofNat diffs.length)
 
+/-- `CompressedModelState.VariableDifferences`: candidate minus current, one entry per objective
+(Go indexes the current vector by the candidate's indices; both always have the model's dimension) -/
+def diffs {α : Type} (A : Arith α) (cand cur : List Rat) : List α :=
+  List.zipWith (fun c b => A.sub (A.ofRat c) (A.ofRat b)) cand cur
+
 /-- how the explorer sees the model it optimises -/
 structure ModelOps (σ : Type) where
   compress : σ → Entry                 -- objective vector (order keys) and action set
+  values : σ → List Rat                -- the objective values themselves (what `compress` keys), sorted-name order
   syncTo : σ → List Bool → σ           -- `SynchroniseTo` / `Decompress`: set exactly this action set
   randomize : σ → List Nat → σ         -- `Randomize()` with its draws given
 
@@ -50,6 +61,7 @@ structure Params (α : Type) where
   kind : CoolantKind
   minRate : α        -- float64(MinimumReturnToBaseRate)
   factor : α         -- ReturnToBaseAdjustmentFactor
+  checkNonDominance : Bool := false   -- CheckNonDominance: run the archive's self-check every iteration
 
 structure Ex (α σ : Type) where
   current : σ
@@ -69,11 +81,13 @@ structure Out (α : Type) where
   moved : Bool               -- the current solution became the candidate
   forced : Bool
   returned : Bool            -- a return-to-base happened
+  diffs : List α             -- `VariableDifferences(candidate, current)` as the coolant would receive them
+  selfCheckPanic : Bool      -- `checkNonDominanceIfRequired` panicked ("Dominance detected …")
+  emptyPickPanic : Bool      -- return-to-base on an empty archive (`Intn(0)` panics in Go)
 
 /-- inputs of one iteration -/
 structure In (α : Type) where
   draws : List Nat           -- the candidate's `Randomize()` draws
-  diffs : List α             -- `VariableDifferences(candidate, current)` as the coolant receives them
   u : α                      -- the coolant's uniform draw (consumed only for undesirable candidates)
   pick : Nat                 -- `SelectRandomModel()` index (consumed only on return-to-base)
 
@@ -97,10 +111,11 @@ def iterate {α σ : Type} (A : Arith α) (M : ModelOps σ) (P : Params α) (e :
   -- generatePotentialModel
   let pot := M.randomize (M.syncTo e.potential (M.compress e.current).act) i.draws
   let cand := M.compress pot
+  let ds := diffs A (M.values pot) (M.values e.current)
   let (res, arch1) := Real.attempt e.archive cand
   let desirable := desirableRes res
   -- AcceptOrRevertChange
-  let p := accProb A P.kind e.temperature i.diffs
+  let p := accProb A P.kind e.temperature ds
   let moved := desirable || A.gt p i.u
   let forced := !desirable && moved
   let arch2 := if forced then (Real.force arch1 cand).2 else arch1
@@ -116,11 +131,45 @@ def iterate {α σ : Type} (A : Arith α) (M : ModelOps σ) (P : Params α) (e :
      countdown := cd, step := st, iter := e.iter + 1,
      lastReturned := if due then e.iter else e.lastReturned },
    { result := res, desirable := desirable, prob := if desirable then none else some p,
-     moved := moved, forced := forced, returned := due })
+     moved := moved, forced := forced, returned := due, diffs := ds,
+     -- checkNonDominanceIfRequired (after the return-to-base, before the iteration counter advances)
+     selfCheckPanic := P.checkNonDominance && !isNonDominantAsWritten Crem.Dominance.dominates arch2,
+     emptyPickPanic := due && arch2.isEmpty })
 
 /-- `CoolDown` -/
 def coolDown {α σ : Type} (A : Arith α) (factor : α) (e : Ex α σ) : Ex α σ :=
   { e with temperature := A.mul e.temperature factor }
+
+/-- what the annealer (or any other caller) does to an explorer -/
+inductive Call (α : Type)
+  | iter (i : In α)          -- `TryRandomChange`
+  | cool (factor : α)        -- `CoolDown`
+
+/-- any interleaving of `TryRandomChange` and `CoolDown` calls (the annealer's loop is
+`iter, cool, iter, cool, …` with one factor); returns the final state and what each iteration did -/
+def run {α σ : Type} (A : Arith α) (M : ModelOps σ) (P : Params α) : Ex α σ → List (Call α) → Ex α σ × List (Out α)
+  | e, [] => (e, [])
+  | e, .iter i :: cs =>
+    let r := iterate A M P e i
+    let rest := run A M P r.1 cs
+    (rest.1, r.2 :: rest.2)
+  | e, .cool f :: cs => run A M P (coolDown A f e) cs
+
+/-- the annealer's loop (C07): `TryRandomChange`, `CoolDown`, `TryRandomChange`, `CoolDown`, … -/
+def annealCalls {α : Type} (factor : α) : List (In α) → List (Call α)
+  | [] => []
+  | i :: is => .iter i :: .cool factor :: annealCalls factor is
+
+/-- number of `TryRandomChange` calls in a call sequence -/
+def iterCount {α : Type} : List (Call α) → Nat
+  | [] => 0
+  | .iter _ :: cs => iterCount cs + 1
+  | .cool _ :: cs => iterCount cs
+
+/-- 1-based positions (offset `k`) of the `true` flags -/
+def timesOf : Nat → List Bool → List Nat
+  | _, [] => []
+  | k, b :: bs => if b then (k + 1) :: timesOf (k + 1) bs else timesOf (k + 1) bs
 
 /-- the countdown sequence alone: `n` ticks from `(countdown, step)`; returns the list of
 iterations (1-based, counted from the first tick) at which a return-to-base happened -/
